@@ -140,7 +140,7 @@ UNION_HARNESS(3, 3, 0) UNION_HARNESS(3, 3, 1) UNION_HARNESS(3, 3, 2)
 // Lists that contain empty spans [p, p) (build_liveness can leave one for a register that is live through a block without
 // instructions): the refusal may then be conservative, but an accepted union still means that no two spans share a position.
 template<unsigned NX, unsigned NY>
-static void union_weak_case() {
+static void union_loose_case() {
   Arena& arena = env_arena();
   Sp x[3], y[3];
   make_list<NX>(x, true); make_list<NY>(y, true);
@@ -148,26 +148,30 @@ static void union_weak_case() {
   RALiveSpans lx, ly, out;
   bind_list<NX>(lx, xs, x); bind_list<NY>(ly, ys, y);
   Error err = out.non_overlapping_union_of(arena, lx, ly);
-  bool hit = any_intersection<NX, NY>(x, y);
+  bool hit = false;   // as sets of positions: [a, b) and [c, d) share a position iff max(a, c) < min(b, d)
+  for (unsigned i = 0; i < NX; i++) for (unsigned j = 0; j < NY; j++) {
+    uint32_t lo = x[i].a > y[j].a ? x[i].a : y[j].a, hi = x[i].b < y[j].b ? x[i].b : y[j].b;
+    if (lo < hi) hit = true;
+  }
   verif_observe(uint32_t(err)); verif_observe(hit);
-  V_ASSERT(err == Error::kOk || err == Error::kByPass, "spans weak: union returns ok or bypass");
+  V_ASSERT(err == Error::kOk || err == Error::kByPass, "spans loose: union returns ok or bypass");
   if (err == Error::kOk) {
-    V_ASSERT(!hit, "spans weak: an accepted union means no two spans share a position");
-    V_ASSERT(out.size() == NX + NY, "spans weak: the union holds as many spans as both inputs");
+    V_ASSERT(!hit, "spans loose: an accepted union means no two spans share a position");
+    V_ASSERT(out.size() == NX + NY, "spans loose: the union holds as many spans as both inputs");
     const RALiveSpan* o = out.data();
     for (unsigned k = 0; k < NX + NY; k++) {
-      V_ASSERT(uint32_t(o[k].a) <= uint32_t(o[k].b), "spans weak: no span of the union is inverted");
-      if (k + 1 < NX + NY) V_ASSERT(uint32_t(o[k].b) <= uint32_t(o[k + 1].a), "spans weak: the union is sorted and pairwise disjoint");
+      V_ASSERT(uint32_t(o[k].a) <= uint32_t(o[k].b), "spans loose: no span of the union is inverted");
+      if (k + 1 < NX + NY) V_ASSERT(uint32_t(o[k].b) <= uint32_t(o[k + 1].a), "spans loose: the union is sorted and pairwise disjoint");
     }
-    V_WITNESS("weak-ok");
+    V_WITNESS("loose-ok");
   }
   else {
-    if (!hit) V_WITNESS("weak-conservative-refusal");
-    V_WITNESS("weak-refused");
+    if (!hit) V_WITNESS("loose-conservative-refusal");
+    V_WITNESS("loose-refused");
   }
 }
-HARNESS h_spans_union_weak_3_3() { union_weak_case<3, 3>(); }
-HARNESS h_spans_union_weak_2_3() { union_weak_case<2, 3>(); }
+HARNESS h_spans_union_loose_3_3() { union_loose_case<3, 3>(); }
+HARNESS h_spans_union_loose_2_3() { union_loose_case<2, 3>(); }
 
 // --------------------------------------------------------------------------------------------------------------------------
 // intersects(): same verdict as the refusal, no memory involved
